@@ -8,8 +8,18 @@
    Between knots and in the extrapolation region all members of the oracle class differ; there the
    comparator only asks for what the property asks: a finite, non-negative value. *)
 Require Import Cherab.Common.Qx Cherab.Model.C07_Rates.
-From Coq Require Import Qabs.
+From Coq Require Import Qabs Uint63.
 Open Scope Q_scope.
+
+(* a double as (53-bit mantissa, binary exponent): m * 2^e exactly.  The mantissa is written as a primitive
+   63-bit integer literal, which coqc reads ~5x faster than a Z literal of the numerator and the 2^k denominator;
+   it is turned into Z / Q before anything is computed with it.  Only the generated case files use this. *)
+Definition dq (m : int) (e : Z) : Q :=
+  let z := Uint63.to_Z m in
+  if (0 <=? e)%Z then Qmake (z * 2 ^ e) 1 else Qmake z (Z.to_pos (2 ^ (- e))).
+Definition dqn (m : int) (e : Z) : Q := Qopp (dq m e).
+Arguments dq m%uint63_scope e%Z_scope.
+Arguments dqn m%uint63_scope e%Z_scope.
 
 Definition xlg (v : Q) : Q := v.
 Definition xex (a : Q) : Q := Qabs a.
